@@ -97,6 +97,12 @@ func (t *Transaction) GetRollbackTransaction() *Transaction {
 	for _, v := range t.oldIntents {
 		tr.AddTransactionIntent(v, TransactionIntentNew)
 	}
+	// a replace intent replaced the whole configuration of the device: the running
+	// configuration from before the transaction is what the rollback has to put back
+	tr.replace = nil
+	if t.replace != nil {
+		tr.replace = t.oldRunning
+	}
 	tr.isRollback = true
 	return tr
 }
